@@ -153,7 +153,7 @@ func init() {
 		spec := &mc.Spec{
 			Level: "exploration",
 			Rule: "seam A (ptracer.Tracer, scripted Handle): every program of ≤ maxOps operations over {mkdirat, unlinkat, openat(O_CREAT) (traced), getpid (allowed), getuid (neither: the filter kills)} × issuer ∈ {main, forked child, vforked child, thread, grandchild} " +
-				"× every map traced-op → {allow, ban, kill} × tracee state {ordinary, %ds/%es = 0x28 (loadable by the program, refused by PTRACE_SETREGS), path strings in a write-only page (readable for the kernel, not for process_vm_readv)}; seam B (runner/ptrace.Runner, scripted policy): mkdirat / unlinkat / renameat2 / linkat with every per-path verdict pair and a traced call judged by name (getppid) with every verdict, × the runner's debug switches ShowDetails × Unsafe (Unsafe softens a kill reached by name into a ban and nothing else; ShowDetails changes nothing). Oracle: reference interpreter of the script (return values from the program's own log, side effects read from the file system after the run). " +
+				"× every map traced-op → {allow, ban, kill} × tracee state {ordinary, %ds/%es = 0x28 (loadable by the program, refused by PTRACE_SETREGS), path strings in a write-only page (readable for the kernel, not for process_vm_readv)}; seam B (runner/ptrace.Runner, scripted policy): mkdirat / unlinkat / renameat2 / linkat with every per-path verdict pair and a traced call judged by name (getppid) with every verdict, × the runner's debug switches ShowDetails × Unsafe (Unsafe softens a kill reached by name into a ban and nothing else; ShowDetails changes nothing) × Runner value fresh / reused after a run under another handler and other switches. Oracle: reference interpreter of the script (return values from the program's own log, side effects read from the file system after the run). " +
 				"non-trivial: at least one traced op with a non-allow verdict or a non-main issuer; distinct = (program, issuer, verdict map, observation)",
 			Bound:       map[string]any{"max_ops": maxOps},
 			Assumptions: []string{"programs are sequential (a parent waits for its sub-script), so 'later operation' is well defined", "a filter kill inside a child process ends only that child; the Disallowed Syscall verdict is required only when the main thread group is killed"},
@@ -432,6 +432,8 @@ func c03policy(x *mc.X) {
 	showDetails := x.Bool("ShowDetails")
 	unsafeFlag := x.Bool("Unsafe")
 	byName := strings.HasPrefix(op, "getppid")
+	// the Runner value is fresh, or has already served a run under another handler and other switches
+	reused := x.Bool("runner-value-reused-after-a-run-with-another-handler")
 	x.Note("seam", "runner/ptrace policy")
 	x.Note("verdicts", fmt.Sprint(vNames[v1], "/", vNames[v2]))
 	if x.Dry() {
@@ -492,13 +494,34 @@ func c03policy(x *mc.X) {
 	defer lf.Close()
 	ctx, cancel := context.WithTimeout(context.Background(), 20*time.Second)
 	defer cancel()
-	res := runPtrace(ctx, []string{probe("sysrun")}, func(r *ptrace.Runner) {
+	var res runner.Result
+	if !reused {
+		res = runPtrace(ctx, []string{probe("sysrun")}, func(r *ptrace.Runner) {
+			r.Files = []uintptr{sf.Fd(), lf.Fd(), devnull()}
+			r.Seccomp = c03Filter()
+			r.Handler = pol
+			r.ShowDetails = showDetails
+			r.Unsafe = unsafeFlag
+		})
+	} else {
+		// one Runner value serves two runs: first a program that ends at once under a policy that allows everything and
+		// with the opposite switches, then — handler and switches replaced — the run that is judged
+		qf, _ := os.CreateTemp(dir, "quit")
+		qf.WriteString("Q 0\n")
+		qf.Seek(0, 0)
+		defer qf.Close()
+		r := &ptrace.Runner{Args: []string{probe("sysrun")}, Env: []string{"PATH=/bin"}, Files: []uintptr{qf.Fd(), devnull(), devnull()},
+			Seccomp: c03Filter(), Handler: allowHandler{}, Limit: bigLimit, ShowDetails: false, Unsafe: !unsafeFlag}
+		if first := r.Run(ctx); first.Status != runner.StatusNormal {
+			x.Failf("C03/harness", "first run on the reused Runner ended %s %q", statusName(first.Status), first.Error)
+			return
+		}
 		r.Files = []uintptr{sf.Fd(), lf.Fd(), devnull()}
-		r.Seccomp = c03Filter()
 		r.Handler = pol
 		r.ShowDetails = showDetails
 		r.Unsafe = unsafeFlag
-	})
+		res = r.Run(ctx)
+	}
 	rets := readLog(logPath)
 	opLine := 0
 	for li, l := range strings.Split(script, "\n") {
@@ -538,13 +561,13 @@ func c03policy(x *mc.X) {
 		// no side effect to look at: the call "took effect" when the program received a process id
 		effect = logged && ret > 0
 	}
-	cs := fmt.Sprintf("%s by %s with verdicts %s/%s (ShowDetails %v, Unsafe %v)", op, issuer, vNames[v1], vNames[v2], showDetails, unsafeFlag)
+	cs := fmt.Sprintf("%s by %s with verdicts %s/%s (ShowDetails %v, Unsafe %v, Runner value reused %v)", op, issuer, vNames[v1], vNames[v2], showDetails, unsafeFlag, reused)
 	if hibits {
 		cs += " (syscall number with garbage in the upper half of the register)"
 	}
 	x.Note("result", fmt.Sprintf("%s ret=%d logged=%v effect=%v asked=%v", statusName(res.Status), ret, logged, effect, len(pol.asked)))
 	if comb != vAllow || issuer != "main" {
-		x.Distinct(fmt.Sprint(op, issuer, v1, v2, hibits, showDetails, unsafeFlag, res.Status, ret > 0, logged, effect))
+		x.Distinct(fmt.Sprint(op, issuer, v1, v2, hibits, showDetails, unsafeFlag, reused, res.Status, ret > 0, logged, effect))
 	}
 	x.Outcome(fmt.Sprintf("policy:%s:%s", vNames[comb], statusName(res.Status)))
 	switch comb {
